@@ -139,6 +139,9 @@ def run(chk):
                 'self-distance: generated IPA words x shipped models x modes; non-trivial = alignment with gap and match / a != b / word longer than 2')
     chk.lean_obligations()
     ac.kernel_correspondence(chk, want='opt')
+    # the entry points the statement names (nw_align, sw_align, pw_align, align_pair ... with scale = 1): the score they return is
+    # the score of the kernel they route to, which is the one tied to the model above
+    ac.dispatcher_checks(chk, want='opt')
     edit_checks(chk)
     self_distance(chk)
 
